@@ -386,10 +386,13 @@ class Ctx:
 
     # ------------------------------------------------------------------ known findings
     def known_findings(self):
-        p = os.path.join(ROOT, "known_findings.json")
-        if not os.path.exists(p):
-            return []
-        return [f for f in json.load(open(p)).get("findings", []) if f.get("property") == self.prop]
+        """entries of this property from known_findings.d/*.json (fragments, one per property; the
+        committed single file known_findings.json is the merge written by `./check manifest`)"""
+        import glob
+        res = []
+        for p in sorted(glob.glob(os.path.join(ROOT, "known_findings.d", "*.json"))):
+            res += [f for f in json.load(open(p)).get("findings", []) if f.get("property") == self.prop]
+        return res
 
     def known(self, fid, what):
         line = "KNOWN-FINDING: property=%s %s %s" % (self.prop, fid, what)
